@@ -938,7 +938,9 @@ Section Finalize.
     end.
   Definition reg_handle (n : string) : regop :=
     match lookup_reg_info n regs with
-    | Some ri => if existsb (String.eqb (reg_prefix +++ n)) removed then RParam (n +++ "_op") else r_op ri
+    | Some ri => if existsb (String.eqb (reg_prefix +++ n)) removed then RParam (n +++ "_op")
+                 else if r_pc ri then RParam (n +++ "_op")   (* the pc alias declares no operand handle: a write names an undeclared one *)
+                 else r_op ri
     | None => RParam (n +++ "_op")
     end.
   Definition fin_op (r : regop) : regop :=
